@@ -16,7 +16,7 @@ fn filter03(s: Stat) -> bool {
 pub fn plan03(tier: Tier) -> Plan {
     let q = tier == Tier::Quick;
     let mut checks: Vec<Box<dyn Check>> = Vec::new();
-    for (a, dq, dt) in [("small", 7, 9), ("dec", 7, 9), ("tail", 7, 10), ("off9", 7, 10), ("negoff", 8, 11), ("ap", 7, 10), ("tiny", 6, 8), ("large", 6, 8), ("tiny20", 6, 8), ("large25", 6, 8), ("two01", 10, 16), ("two13", 10, 16), ("two9", 10, 16)] {
+    for (a, dq, dt) in [("small", 7, 9), ("dec", 7, 9), ("tail", 7, 10), ("off9", 7, 10), ("negoff", 8, 11), ("ap", 7, 10), ("tiny", 6, 8), ("large", 6, 8), ("tiny20", 6, 8), ("large25", 6, 8), ("offbig", 6, 8), ("offsmall", 6, 8), ("two01", 10, 16), ("two13", 10, 16), ("two9", 10, 16)] {
         let d = if q { dq } else { dt };
         checks.push(add_check::<Skewness>("C03", a, d, filter03, false));
         checks.push(add_check::<Kurtosis>("C03", a, d, filter03, false));
@@ -38,7 +38,7 @@ fn filter04(s: Stat) -> bool {
 }
 
 fn fam04<T: Uni>(checks: &mut Vec<Box<dyn Check>>, q: bool) {
-    for (a, dq, dt) in [("small", 6, 8), ("dec", 6, 8), ("tail", 6, 9), ("off9", 6, 9), ("off11", 6, 8), ("negoff", 7, 10), ("mixed", 6, 8), ("ap", 6, 9), ("tiny", 5, 7), ("large", 5, 7), ("tiny20", 5, 7), ("large25", 5, 7), ("two13", 9, 14)] {
+    for (a, dq, dt) in [("small", 6, 8), ("dec", 6, 8), ("tail", 6, 9), ("off9", 6, 9), ("off11", 6, 8), ("negoff", 7, 10), ("mixed", 6, 8), ("ap", 6, 9), ("tiny", 5, 7), ("large", 5, 7), ("tiny20", 5, 7), ("large25", 5, 7), ("offbig", 5, 7), ("offsmall", 5, 7), ("two13", 9, 14)] {
         let d = if q { dq } else { dt };
         checks.push(add_check::<T>("C04", a, d, filter04, true));
     }
